@@ -336,7 +336,9 @@ example : memFrameBytes [[1,2],[3,4]].flatten 1 2 1 8 2 "MONOCHROME2" 2 false = 
 
 /-- **A frame number is accepted iff it is an integer object that lies inside the image** - Python ints, numpy integer
 scalars of every width, and `True` / `False` as the ints they are; the answer is its 0-based index, never wrapped.
-(`stdFrameIndexV` = the conversion the source applies first - regenerated name, T1c - followed by the regenerated guard T1.) -/
+(`stdFrameIndexV` = the conversion the source applies first - regenerated name, T1c - followed by the regenerated guard T1; what
+`operator.index` does with each kind of value is Python's and hand-written in `opIndex`: tie C, the L2 value-kind grid on the real
+helper and the non-integer spellings drawn on every method.) -/
 theorem frame_number_value_accepted_iff (v : PyVal) (asIndex : Bool) (N r : Int) :
     stdFrameIndexV v asIndex N = .ok r ↔
       ∃ k, v.asInteger = some k ∧ 0 ≤ r ∧ r < N ∧ r = (if asIndex then k else k - 1) := by
@@ -579,6 +581,18 @@ theorem every_path_is_slice (pd : List Nat) (rows cols n i : Nat) (hN : 0 < rows
   · rw [pixels_by_frame_fetch_eq_stored _ _ _ _ _ (by omega) (by omega), ← hd.2]; exact hl
   · rw [whole_array_lazy_is_all_slices pd rows cols hN n (by omega) h]
     simp [Except.map, hi]
+
+/-- non-vacuity of the umbrella statement, of the whole-array statement and of the loop statement: three 2x3 one-bit frames in
+    3 bytes (frame boundaries inside bytes) -/
+example : memFrameBits [0x61, 0x0C, 0x2A] 2 3 1 3 2 false = .ok (sliceBits [0x61, 0x0C, 0x2A] (2 * 3) 1) :=
+  (every_path_is_slice [0x61, 0x0C, 0x2A] 2 3 3 1 (by decide) (by decide) (by decide)).1
+example : lazyWholeBits [0x61, 0x0C, 0x2A] 2 3 1 3 = .ok ((List.range 3).map (sliceBits [0x61, 0x0C, 0x2A] (2 * 3))) :=
+  whole_array_lazy_is_all_slices [0x61, 0x0C, 0x2A] 2 3 (by decide) 3 (by decide) (by decide)
+example : pixelsSkel.fetch true (memRaw [0x61, 0x0C, 0x2A] 2 3 1 1 "MONOCHROME2") (lazyRaw [0x61, 0x0C, 0x2A] 2 3 1 1 3 "MONOCHROME2") 3 2
+    = Skel.fetch singleSkel true (memRaw [0x61, 0x0C, 0x2A] 2 3 1 1 "MONOCHROME2") (lazyRaw [0x61, 0x0C, 0x2A] 2 3 1 1 3 "MONOCHROME2") 3 (2 + 1) false :=
+  pixels_by_frame_fetch_eq_stored true _ _ 3 2 (by decide) (by decide)
+example : pixelsSkel.fetch true (memRaw [0x61, 0x0C, 0x2A] 2 3 1 1 "MONOCHROME2") (lazyRaw [0x61, 0x0C, 0x2A] 2 3 1 1 3 "MONOCHROME2") 3 2
+    = .ok ([0x0C, 0x2A], 2) := by decide +kernel
 
 /-- non-vacuity: three 2x3 one-bit frames in 3 bytes (frame boundaries inside bytes), frame 2 -/
 example : lazyFrameBits [0x61, 0x0C, 0x2A] 2 3 1 3 2 false = .ok (sliceBits [0x61, 0x0C, 0x2A] 6 1) :=
@@ -970,6 +984,12 @@ example : lazyRawEnc (encBot [] ++ (encItems [[0xFF,0xD8,1,2],[3,4],[0xFF,0xD8,5
     ⟨by simp [WellFormed], by simp, Or.inl (by simp [MarkerDelimited, isStart]), by simp⟩ [] [9, 9] (Or.inl (by simp)) (by simp) (by simp) 0 (by simp)
 example : lazyRawEnc (encBot [] ++ (encItems [[0xFF,0xD8,1,2],[3,4],[0xFF,0xD8,5,6]] ++ (delimiter ++ []))) (some (encEot [0, 22])) 2 1
     = .ok [0xFF,0xD8,5,6] := by decide +kernel
+example : lazyRawEnc (encBot [] ++ (encItems [[0xFF,0xD8,1,2],[3,4],[0xFF,0xD8,5,6]] ++ (delimiter ++ []))) (some (encEot [0, 22])) 2 1
+    = .ok [0xFF,0xD8,5,6] :=
+  lazy_encapsulated_frame_eot [[[0xFF,0xD8,1,2],[3,4]],[[0xFF,0xD8,5,6]]]
+    ⟨by simp [WellFormed], by simp, Or.inl (by simp [MarkerDelimited, isStart]), by simp⟩ [] (by decide) 1 (by simp)
+example : buildBotB (encItems [[1,2],[3,4]] ++ (delimiter ++ [7])) 2 = .ok [0, 10] :=
+  (build_bot_accepts_iff [[1,2],[3,4]] (by simp) [7] 2 [0, 10]).mpr ⟨by simp [WellFormed], Or.inr (by decide)⟩
 example : ∃ e, buildBotB (encItems [[1,2],[3,4]] ++ []) 2 = .error e :=
   build_bot_refuses_undelimited [[1,2],[3,4]] (by simp) [] 2 (by decide)
 example : lazyRawEnc (encBot [] ++ (encItems [[1,2,3]] ++ delimiter)) none 1 0 = .error .other := by decide +kernel
